@@ -313,9 +313,10 @@ func (db *TempPool) OperationHashes(
 				return true, nil
 			}
 
-			// NOTE filter duplicated fact; last one will be selected
+			// NOTE filter duplicated fact; last one will be selected and the
+			// previous one will be removed
 			if prev, found := facts[meta.Fact().String()]; found {
-				removeops = append(removeops, meta.Operation())
+				removeops = append(removeops, ops[prev][0])
 
 				nops := make([][2]util.Hash, len(ops))
 				copy(nops, ops[:prev])
